@@ -54,6 +54,13 @@ def correspond(ctx, C):
         if "crash" in row["go"] or any("panic" in run for run in row["go"].get("runs", [])):
             lines.append("%s (%s) [%s]" % (f["what"], f["site"], f["id"]))
     cov = st.coverage(RULE)
+    # documents that meet the hypotheses of C07_whole_model_no_panic_exec (definitions table closed, every reference of the view known),
+    # and the model's own panic flag / verdict on them (tie of the whole-of-Validate model)
+    closed = [r for r in rows if isinstance(r.get("m"), dict) and r["m"].get("viewClosed")]
+    cov["documents_meeting_theorem_hypotheses"] = len(closed)
+    nwhole, wbad = S.whole_model_tie(rows)
+    cov["whole_model_verdicts_compared"] = nwhole
+    cov["tie_mismatches"] = len(wbad)
     cov["panic_sites"] = sites
     cov["attributed_to_known_findings"] = attributed
     # distinct by panic site
@@ -62,4 +69,7 @@ def correspond(ctx, C):
         if info.get("where") not in seen:
             seen.add(info.get("where"))
             out.append((case, info))
+    if not out and wbad:
+        case, info = wbad[0]
+        out.append((case, dict(info, tie_cases=len(wbad), no_failing_input=True)))
     return {"coverage": cov, "violations": out[:3], "known": lines}
